@@ -65,8 +65,8 @@ def h_scale(P, which, box):
 def h_sample_normal(P, box, unroll=2):
     from pyhms.initializers import sample_normal, sample_uniform
 
-    bounds = np.array([[float(box[0]), float(box[1])]])
-    c = P.floats("center", (1,), finite=True)
+    bounds = np.array([[float(box[0]), float(box[1])]]) if not isinstance(box[0], (list, tuple)) else np.array(box, dtype=np.float64)
+    c = P.floats("center", (len(bounds),), finite=True)
     P.assume(in_box(c, bounds))
     create = sample_normal(c, 0.5, bounds)
     tries = [0]
@@ -207,6 +207,7 @@ def cases(tier):
         for which in ("lhs", "sobol"):
             cs.append(dict(name=f"scale.{which}.box{box}", fn=h_scale, params=dict(which=which, box=list(box)), portfolio=True, oblig_timeout_s=300, cores=3, **R))
     cs.append(dict(name="sample_normal", fn=h_sample_normal, params=dict(box=[-0.1, 0.2]), oblig_timeout_s=60, **R))
+    cs.append(dict(name="sample_normal.d2.unequal_ranges", fn=h_sample_normal, params=dict(box=[[-1.0, 1.0], [-30.0, 30.0]]), oblig_timeout_s=60, **R))
     for e in ("sea", "sea-xover", "ga", "sea-adaptive"):
         cs.append(dict(name=f"pipeline.{e}", fn=h_pipeline, params=dict(engine=e), oblig_timeout_s=60, abstract_mul=True, weight=5, **R))
     cs.append(dict(name="pipeline.de", fn=h_pipeline, params=dict(engine="de", n=4), oblig_timeout_s=60, abstract_mul=True, weight=30, **R))
